@@ -160,10 +160,23 @@ package martian
 
 // A rejected CONNECT at an upstream proxy travels as a connectError that holds
 // the proxy's own reply (C12): its status (never an informational one).
+// (io.ReadAll on the rejection's body; nCut counts reads that ended in an error,
+// i.e. bodies that arrived incomplete)
+//@ ghost ivar nCut() int
+//@ contract readAllBody(r io.Reader) (b []byte, err error)
+//@ modifies *, nCut()
+//@ preserves http.Response.* http.Request.* maps(http.Header)
+//@ ensures err == nil ==> len(b) >= 0 && nCut() == old(nCut())
+//@ ensures err != nil ==> nCut() == old(nCut()) + 1
+
 //@ func OnProxyConnectResponse
 //@ property C12
+//@ callas io.ReadAll readAllBody
 //@ requires req != nil && connectRes != nil
-//@ modifies *
+//@ modifies *, nCut()
+// C12: a rejection whose body could not be read to its end is relayed without
+// body - never a part of it framed as if it were the whole.
+//@ ensures nCut() != old(nCut()) ==> result is *connectError && result.(*connectError).res != nil && result.(*connectError).res.ContentLength == 0
 //@ preserves http.Response.StatusCode http.Response.Request
 //@ ensures old(connectRes.StatusCode) / 100 == 2 ==> result == nil
 //@ ensures old(connectRes.StatusCode) / 100 != 2 ==> result is *connectError && result.(*connectError).res != nil && result.(*connectError).res.Header != nil == (old(connectRes.Header) != nil) && result.(*connectError).res.ContentLength >= 0
